@@ -33,11 +33,12 @@ All == 1..Len(rows)
 Sum(T, f(_)) == FoldSet(LAMBDA i, acc : acc + f(i), 0, T)
 Wt(uw, i) == IF uw THEN Wof(rows[i]) ELSE 1
 
-Metrics == <<"sel", "tpr", "fpr", "fnr", "tnr", "acc", "prec", "zol", "smean", "precn", "tpc">>
+Metrics == <<"sel", "tpr", "fpr", "fnr", "tnr", "acc", "prec", "zol", "smean", "precn", "tpc", "amean">>
+\* "amean" = |smean| is NON-NEGATIVE but not a mean: the overall value can be exactly 0 while groups are not (to_overall ratio: r = +inf, min(r, 1/r) = 0)
 \* "tpc" is integer valued (the by_group column of an all-integer frame has an integer dtype)
 \* "precn" can be undefined (NaN) on a non-empty group; NaN cells are skipped by every aggregate exactly like empty combinations
 \* "smean" is a SIGNED metric: the weighted mean of the per-row score (2*pred - 1) * (1 + y) in {-2, -1, 1, 2}
-NonNegMetrics == {"sel", "tpr", "fpr", "fnr", "tnr", "acc", "prec", "zol"}
+NonNegMetrics == {"sel", "tpr", "fpr", "fnr", "tnr", "acc", "prec", "zol", "amean"}
 MetricSet == {Metrics[k] : k \in 1..Len(Metrics)}
 
 \* metric m on the row set T (weights used iff uw); Undef for the empty set
@@ -57,6 +58,7 @@ MetricOn(m, T, uw) ==
        [] m = "prec" -> R0(tp, tp + fp)
        [] m = "zol"  -> Frac(fp + fn, tp + fn + fp + tn)
        [] m = "smean" -> Frac(2 * tp + fp - 2 * fn - tn, tp + fn + fp + tn)
+       [] m = "amean" -> AbsR(Frac(2 * tp + fp - 2 * fn - tn, tp + fn + fp + tn))
        [] m = "tpc"   -> OfInt(Cardinality({i \in T : Yof(rows[i]) = 1 /\ Pof(rows[i]) = 1}))          \* an INTEGER-valued metric: the number of true positives
        [] m = "precn" -> IF tp + fp = 0 THEN Undef ELSE Frac(tp, tp + fp)       \* precision, UNDEFINED (NaN) without predicted positives
 
